@@ -108,6 +108,47 @@ func IntDom(n int) *Dom[int] {
 	return d
 }
 
+// wideAnchors are ints from the whole range of the type: both extremes and
+// their neighbours, values more than MaxInt apart from each other (a-b wraps
+// around), the 2^31/2^32/2^53 marks, small negatives and zero.
+var wideAnchors = []int{
+	math.MinInt, math.MinInt + 1, math.MinInt + 12, -6000000000000000000, -(1 << 62) - 1, -(1 << 62), -4000000000000000000,
+	-(1 << 53), -(1 << 32) - 1, -(1 << 31) - 1, -(1 << 31), -1000003, -300, -13, -12, -7, -2, -1, 0, 1, 2, 5, 11, 12, 255, 256, 65536,
+	1<<31 - 1, 1 << 31, 1 << 32, 1 << 53, 3000000000000000000, 1 << 62, 1<<62 + 1, 5000000000000000000, 6000000000000000000,
+	math.MaxInt - 12, math.MaxInt - 1, math.MaxInt,
+}
+
+// WideIntDom: an int alphabet of n values drawn from the whole range of the
+// type - negatives, both extremes, pairs further apart than MaxInt. Whoever
+// compares by subtraction, indexes by the value, sorts by the unsigned bit
+// pattern or treats a negative or the zero value as "absent" meets them here.
+// The comparators of intCmps are overflow-free, so they stay valid orders.
+func WideIntDom(r *core.R, n int) *Dom[int] {
+	d := &Dom[int]{Name: "wide-int", Cmps: intCmps, Fmt: func(v int) string { return fmt.Sprint(v) }, Builtin: builtinFor[int]()}
+	perm := r.Perm(len(wideAnchors))
+	if n > len(wideAnchors)-6 {
+		n = len(wideAnchors) - 6
+	}
+	for i, p := range perm {
+		if i < n {
+			d.Alpha = append(d.Alpha, wideAnchors[p])
+		} else {
+			d.Probe = append(d.Probe, wideAnchors[p])
+		}
+	}
+	d.Wide = func(r *core.R) int { return int(r.U64()) }
+	return d
+}
+
+// wideIntKey is ascending in the natural order and spreads 2^15 indices over
+// the whole range of int.
+func wideIntKey(i int) int {
+	if i < 0 || i >= 1<<15 {
+		panic("wideIntKey: index out of range")
+	}
+	return (i - 1<<14) * (1 << 49)
+}
+
 var strAlphabet = []string{"", "a", "A", "ab", "b", "B", "k1", "\"k1\"", "a\"q", "a\\b", "b\aell", "<>&", "é", "1", "\x7f", "10", "0", "null", "a b", " ", "zz", "Zz", "{}", "[1]", "true", "\u2028"}
 
 func StrDom(n int) *Dom[string] {
